@@ -499,7 +499,7 @@ fn build_debug_for_struct(
     let use_bounds = e.push_bounds_to_with(hattrs, kind, &mut wcb);
     let to_expr = |field: &FieldEntry| {
         let member = field.member();
-        quote!(&&self.#member)
+        quote!(&self.#member)
     };
     let expr = build_debug_expr(
         this_ty_ident,
@@ -510,10 +510,12 @@ fn build_debug_for_struct(
         &mut wcb,
     )?;
     let wheres = wcb.build(|ty| quote!(#ty : #trait_));
+    let ref_def = build_debug_ref_def();
     Ok(quote! {
         #[automatically_derived]
         impl #impl_g #trait_ for #this_ty #wheres {
             fn fmt(&self, f: &mut ::core::fmt::Formatter) -> ::core::fmt::Result {
+                #ref_def
                 #expr
             }
         }
@@ -539,7 +541,7 @@ fn build_debug_for_enum(
         let use_bounds = variant.hattrs.push_bounds_to(use_bounds, kind, &mut wcb);
         let to_expr = |field: &FieldEntry| {
             let var = field.make_ident("");
-            quote!(&#var)
+            quote!(#var)
         };
         let expr = build_debug_expr(
             variant_ident,
@@ -558,16 +560,30 @@ fn build_debug_for_enum(
     } else {
         quote!(self)
     };
+    let ref_def = build_debug_ref_def();
     Ok(quote! {
         #[automatically_derived]
         impl #impl_g #trait_ for #this_ty #wheres {
             fn fmt(&self, f: &mut ::core::fmt::Formatter) -> ::core::fmt::Result {
+                #ref_def
                 match #this {
                     #(#arms,)*
                 }
             }
         }
     })
+}
+/// A wrapper that formats `&T` exactly like `T`, also for unsized `T`,
+/// so that fields can be passed to `Formatter` as `&dyn Debug` without requiring `T: Sized` or `&T: Debug`.
+fn build_debug_ref_def() -> TokenStream {
+    quote! {
+        struct __Ref<'__a, __T: ?::core::marker::Sized>(&'__a __T);
+        impl<'__a, __T: ?::core::marker::Sized + ::core::fmt::Debug> ::core::fmt::Debug for __Ref<'__a, __T> {
+            fn fmt(&self, f: &mut ::core::fmt::Formatter) -> ::core::fmt::Result {
+                ::core::fmt::Debug::fmt(self.0, f)
+            }
+        }
+    }
 }
 fn build_debug_expr(
     ident: &Ident,
@@ -608,8 +624,8 @@ fn build_debug_expr(
                 let e = to_expr(field);
                 let member = field.field.ident.as_ref().map(|i| i.unraw());
                 expr.extend(match is_named {
-                    true => quote! (.field(::core::stringify!(#member), #e)),
-                    false => quote! (.field(#e)),
+                    true => quote! (.field(::core::stringify!(#member), &__Ref(#e))),
+                    false => quote! (.field(&__Ref(#e))),
                 });
                 field.push_bounds_to(use_bounds, kind, wcb);
             }
